@@ -1,10 +1,14 @@
 #!/bin/bash
 # run every check of a tier in sequence; prints one summary line per property
+# usage: run_all.sh [quick|thorough] [ids...]   (default: all twenty, in order)
 tier=${1:-quick}
+shift
+ids="$*"
+[ -z "$ids" ] && ids="C01 C02 C03 C04 C05 C06 C07 C08 C09 C10 C11 C12 C13 C14 C15 C16 C17 C18 C19 C20"
 cd "$(dirname "$0")"
 mkdir -p out
 rc=0
-for p in C01 C02 C03 C04 C05 C06 C07 C08 C09 C10 C11 C12 C13 C14 C15 C16 C17 C18 C19 C20; do
+for p in $ids; do
   t0=$(date +%s)
   ./check $p $tier > out/.run_all_$p.log 2>&1
   r=$?
